@@ -462,10 +462,10 @@ func checkC26(c *Ctx) (string, []string) {
 			return okAll, why
 		}
 		reviewedProducers := map[string]string{
-			"internal/stf.validateExtrinsicHash ← fmt.Errorf": "only when re-encoding the extrinsic that was just decoded from the wire fails (encoder invariants violated by a decoded value)",
+			"internal/stf.validateExtrinsicHash ← fmt.Errorf":                                                         "only when re-encoding the extrinsic that was just decoded from the wire fails (encoder invariants violated by a decoded value)",
 			"(*internal/extrinsic.GuaranteeController).ValidateSignatures ← (*golang.org/x/sync/errgroup.Group).Wait": "propagates the first error returned by the signature-checking goroutines, whose bodies return *types.ErrorCode values",
 			"(*internal/types.Encoder).encodeStruct ← fmt.Errorf":                                                     "value does not implement Encodable: a programming error, not reachable from block contents",
-			"(*internal/types.Encoder).encodeStruct returns unknown p1.(types.Encodable)#0.Encode(p0)":               "errors of the per-type encoders (length/variant invariants of in-memory values built by this node)",
+			"(*internal/types.Encoder).encodeStruct returns unknown p1.(types.Encodable)#0.Encode(p0)":                "errors of the per-type encoders (length/variant invariants of in-memory values built by this node)",
 		}
 		n := 0
 		allInstrs(runSTF, func(in ssa.Instruction) {
@@ -495,10 +495,10 @@ func checkC26(c *Ctx) (string, []string) {
 	// ---- rule 6
 	c.Rule("C26.prior-immutable", "nothing reachable from RunSTF writes through memory owned by the prior state (a (*PriorStates).GetX result reached through a slice element, pointer or map), except the reviewed sites whose effect is idempotent under a retry of the same block and invisible otherwise because every other import re-derives the prior state from the store", 4)
 	reviewed := map[string]string{
-		"(*internal/extrinsic.VerdictController).ClearWorkReports · GetRho":                    "sets prior ρ[i] = nil for reports the same block's verdicts judge bad/wonky: re-running the same block clears the same entries",
-		"internal/authorization.Authorization · GetAlpha → STFAlpha2AlphaPrime":                 "runs as the penultimate STF step; a block that reaches it is accepted unless post-validation of the pools fails, which is a runtime (non-protocol) error that terminates the node",
-		"internal/recent_history.STFBetaH2BetaHDagger · GetBeta → History2HistoryDagger":        "writes the header's parent state root into the last history entry: same value on a retry of the same block",
-		"internal/safrole.KeyRotate · GetIota → ReplaceOffenderKeys":                             "zeroes the keys of validators in ψ_o' inside prior ι at an epoch change: same set on a retry of the same block",
+		"(*internal/extrinsic.VerdictController).ClearWorkReports · GetRho":              "sets prior ρ[i] = nil for reports the same block's verdicts judge bad/wonky: re-running the same block clears the same entries",
+		"internal/authorization.Authorization · GetAlpha → STFAlpha2AlphaPrime":          "runs as the penultimate STF step; a block that reaches it is accepted unless post-validation of the pools fails, which is a runtime (non-protocol) error that terminates the node",
+		"internal/recent_history.STFBetaH2BetaHDagger · GetBeta → History2HistoryDagger": "writes the header's parent state root into the last history entry: same value on a retry of the same block",
+		"internal/safrole.KeyRotate · GetIota → ReplaceOffenderKeys":                     "zeroes the keys of validators in ψ_o' inside prior ι at an epoch change: same set on a retry of the same block",
 	}
 	seenSites := map[string]bool{}
 	report := func(fn *ssa.Function, site string, in ssa.Instruction, what string) {
